@@ -112,6 +112,10 @@ def run(ctx):
                     ks = list(range(K + 1))
                     if K > 12 and not (ctx.thorough or ctx.deepen):
                         ks = sorted(set([0, 1, 2, K - 1, K] + rng.sample(range(K), 5)))
+                    elif K > 48:
+                        # (a large document is hundreds of writes, each position six failure classes and two modes: the first and
+                        #  last positions completely, the middle by seeded sample -- the run must end)
+                        ks = sorted(set(list(range(12)) + list(range(K - 4, K + 1)) + rng.sample(range(K), 24)))
                     for k in ks:
                         for mode in ("at", "from"):
                             cname_, make, cid = CLASSES[rng.randrange(len(CLASSES))] if not (ctx.thorough or ctx.deepen) else (None, None, None)
